@@ -9,6 +9,7 @@ REEVAL = {
     "C05-23": "small line-format files without a final newline / with a ragged last line through DetectFile at limits 0, default, len, len+1",
     "C07-23": "every byte-order mark followed by one and two arbitrary bytes (NUL among them)",
     "C09-23": "arrays of 20-200 numbers with one or all separators damaged",
+    "C19-22": "OOXML packages with a stored part of 70-260 KiB in front of the marker (limit 0); channels run with the last good driver when the model side no longer builds",
     "C14-22": "histories that register the same (name, extension) pair again under the same parent with another accepting format registered in between",
 }
 for d in sorted(glob.glob("/tmp/vfrozen/seeded/C*/meta.json")):
